@@ -13,7 +13,8 @@ import numpy as np
 REPO = os.environ.get("FFCX_REPO", "/repo")
 UFCX_INC = os.path.join(REPO, "ffcx", "codegeneration")
 
-BASE_FLAGS = ["-std=c17", "-O0", "-ffp-contract=off", "-fPIC", "-shared", "-fno-builtin"]
+# -D_DEFAULT_SOURCE: jn/yn are POSIX, not ISO C; the cffi JIT gets them through Python.h's feature macros
+BASE_FLAGS = ["-std=c17", "-D_DEFAULT_SOURCE", "-O0", "-ffp-contract=off", "-fPIC", "-shared", "-fno-builtin"]
 STRICT = ["-Wall", "-Werror=implicit-function-declaration", "-Werror=int-conversion",
           "-Werror=incompatible-pointer-types", "-Wno-unused-variable",
           "-Wno-unused-but-set-variable", "-Wno-unused-const-variable"]
